@@ -1,4 +1,4 @@
-package main
+package c17
 
 // Generators of C17: the exhaustive lattices of the property first, then seeded random worlds, then a malformed stream.
 
